@@ -49,14 +49,13 @@ const (
 	pgVal    = "pgv" // value of the page-only front-matter key pg
 	fdVal    = "fdv" // value of the Fill-only key fd
 
-	// The only place that states the maximum is template_layout.go ("layout chain depth exceeded
-	// maximum of 100"); docs/ do not say what exactly is counted (templates including the page,
-	// layouts, or edges). Hence: more than limitMax layouts is more than 100 under every reading
-	// => must be an error; up to safeMax layouts is comfortably below under every reading => must
-	// succeed; in between (the off-by-one zone) either outcome is accepted, but it must be a clean
-	// one (full correct document, or error with zero bytes).
-	limitMax = 100
-	safeMax  = 90
+	// The maximum: layout()'s error reads "layout chain depth exceeded maximum of 100", and what
+	// it counts on the repository's tree is every template rendered in the chain, the page
+	// included (one count per loop iteration, each iteration loads and renders one template).
+	// So a chain of up to 100 templates (the page and 99 layouts) ends normally, and the first
+	// chain that has "more links than the documented maximum" is the one with 101 templates (the
+	// page and 100 layouts): from there on an error and zero bytes, below it the complete nesting.
+	maxTemplates = 100
 
 	openBudget  = 3000
 	writeBudget = 1 << 20
@@ -596,7 +595,7 @@ func short(b []byte) string {
 }
 
 // check decides one case: the oracle assertions on the case itself (checkOne) plus, where the
-// default layout is due, a metamorphic relation that needs no pinning of the limit's off-by-one:
+// default layout is due, a metamorphic relation:
 // the statement introduces the default only as "applied when the page names no layout and that
 // file exists" - it gives the implicit first link no other meaning than an explicit
 // `layout: base` would have (no longer limit, no other data, no other nesting). Hence the twin
@@ -807,15 +806,11 @@ func judge(c Case, pl plan, res result) error {
 			return fmt.Errorf("a named layout resolves to no file (%s): want an error, got nil and %q", pl.describe(), short(res.out))
 		}
 		return nil
-	case layouts > limitMax:
+	case layouts+1 > maxTemplates:
 		if res.err == nil {
-			return fmt.Errorf("chain of %d layouts exceeds the maximum of %d: want an error, got nil and %d bytes", layouts, limitMax, len(res.out))
+			return fmt.Errorf("chain of %d templates (page + %d layouts) exceeds the maximum of %d: want an error, got nil and %d bytes", layouts+1, layouts, maxTemplates, len(res.out))
 		}
 		return nil
-	case layouts > safeMax:
-		if res.err != nil {
-			return nil // off-by-one zone: a clean error is accepted
-		}
 	default:
 		if res.err != nil {
 			return fmt.Errorf("chain ends after %d layouts (%s): want success, got error %v", layouts, pl.describe(), res.err)
@@ -961,23 +956,20 @@ func classify(c Case) (bool, []string) {
 	var cls []string
 	switch pl.out {
 	case oOK:
-		switch {
-		case layouts > limitMax:
+		if layouts+1 > maxTemplates {
 			cls = append(cls, "outcome=too-long")
-		case layouts > safeMax:
-			cls = append(cls, "outcome=limit-zone")
-		default:
+		} else {
 			cls = append(cls, "outcome=ends")
 		}
 		switch {
-		case layouts <= 5 || (layouts >= 99 && layouts <= 101):
+		case layouts <= 5:
 			cls = append(cls, fmt.Sprintf("layouts=%d", layouts))
-		case layouts <= safeMax:
-			cls = append(cls, fmt.Sprintf("layouts=6..%d", safeMax))
-		case layouts <= limitMax:
-			cls = append(cls, fmt.Sprintf("layouts=%d..%d", safeMax+1, limitMax))
+		case layouts+1 >= maxTemplates-2 && layouts+1 <= maxTemplates+2:
+			cls = append(cls, fmt.Sprintf("templates=%d(at the limit)", layouts+1))
+		case layouts+1 < maxTemplates:
+			cls = append(cls, "templates=7..97")
 		default:
-			cls = append(cls, fmt.Sprintf("layouts>%d", limitMax))
+			cls = append(cls, "templates>=103")
 		}
 	case oCycle:
 		cls = append(cls, "outcome=cycle")
@@ -1110,7 +1102,7 @@ func classify(c Case) (bool, []string) {
 	} else if layK > 1 {
 		col = append(col, "layouts")
 	}
-	if pl.out == oOK && layouts <= safeMax {
+	if pl.out == oOK && layouts+1 <= maxTemplates {
 		if len(col) >= 2 {
 			cls = append(cls, "k-collision:"+strings.Join(col, "+"))
 		} else if len(col) == 1 {
@@ -1543,6 +1535,9 @@ func genCase(t *rapid.T) Case {
 }
 
 func replay(kind string, raw json.RawMessage) error {
+	if strings.HasPrefix(kind, "edges") {
+		return replayEdges(raw)
+	}
 	return run.Decode(raw, check)
 }
 
@@ -1838,7 +1833,7 @@ func overlaySplits(s *stage) {
 // closing into a cycle, or running into a missing file; the page naming the head or reaching
 // it through the default layout.
 func longChains(s *stage) {
-	for _, n := range []int{6, 20, 40, 80, 90, 99, 100, 101, 102, 110, 150} {
+	for _, n := range []int{6, 20, 40, 80, 90, 97, 98, 99, 100, 101, 102, 110, 150} {
 		for _, dir := range []string{"layouts", "pages"} {
 			for _, tail := range []string{"", "c001", "zz"} {
 				for _, viaBase := range []bool{false, true} {
@@ -2037,6 +2032,21 @@ func TestProp(t *testing.T) {
 		}
 		rec.Exhaustive(fmt.Sprintf("%s (%d cases)", x.what, s.n))
 	}
+
+	// content edges: exact comparison where the edges of the previous result survive
+	edgesOK := edgeStage(func(i int, c EdgeCase) bool {
+		if i%shards != shard {
+			return true
+		}
+		nt, cls := classifyEdges(c)
+		return run.Each(rec, "edges", c, nt, cls, checkEdges)
+	})
+	if !edgesOK {
+		rec.Note("stage edges failed; later stages skipped")
+		return
+	}
+	rec.Exhaustive("content edges: 8 page texts x layout kinds pre / raw / text in chains of 1-3 links")
+	run.Rapid(t, rec, "edges-random", genEdges, classifyEdges, checkEdges)
 
 	// random graphs over up to 6 files with spellings, collisions and long tails
 	run.Rapid(t, rec, "random", genCase, classify, check)
